@@ -858,6 +858,101 @@ class Exec(Interp):
                                 requeue.append(tgt)
         return requeue
 
+    def forall_shrink_rule(self, inst, frame, h, inputs, edges):
+        """Validation loop over a shrinking slice: `while let [x, rest @ ..] = cur { ..x..; cur = rest }`.
+        A local holds a reference to a slice; on every back edge it holds the tail `[1..]` of what it held at the
+        head; the body reads element 0 of the head's slice. Facts about that element that hold on every back edge
+        hold for every element of the slice the loop started with, on the exit edge where the rest is empty."""
+        body = self.loop_body(inst, h)
+        J = inputs.get(h)
+        if J is None:
+            return []
+        preds = self.preds_of(inst)
+        back = [p for p in preds.get(h, []) if p in body and (p, h) in edges and not edges[(p, h)].dead]
+        entry = [p for p in (["entry"] if h == 0 else []) + preds.get(h, []) if p not in body and (p, h) in edges and not edges[(p, h)].dead]
+        if not back or not entry:
+            return []
+        dom = self.dominators(inst)
+        requeue = []
+        for cell, v in list(J.cells.items()):
+            if not (isinstance(cell, tuple) and len(cell) == 2 and cell[0] == frame and isinstance(v, Ref) and v.cell is not None):
+                continue
+            qh = self.read(J, v.cell, v.path, ("shrink",))
+            if not isinstance(qh, Seq) or qh.elem is None:
+                continue
+            # back edges: the local holds exactly the tail [1..] of the head's slice
+            ok = True
+            for p in back:
+                bv = edges[(p, h)].cells.get(cell)
+                if not (isinstance(bv, Ref) and bv.cell == v.cell and tuple(bv.path) == tuple(v.path) + (("sub", 1, 0, True),)):
+                    ok = False
+            if not ok:
+                continue
+            # entry edges: the slice the loop starts with (same element summary)
+            lens = set()
+            for p in entry:
+                E = edges[(p, h)]
+                ev = E.cells.get(cell)
+                qe = self.read(E, ev.cell, ev.path, ("shrinke",)) if isinstance(ev, Ref) and ev.cell is not None else None
+                if not (isinstance(qe, Seq) and qe.elem is qh.elem):
+                    ok = False
+                    break
+                lens.add(qe.len)
+            if not ok or len(lens) != 1:
+                continue
+            (l0,) = lens
+            # element symbols read at constant index 0 of the head's slice, in blocks dominating every back edge
+            elems = []
+            for e, info in self.elem_of.items():
+                ln, idx, blk, fpath = info
+                if ln != qh.len or idx != ("ci", 0) or blk not in body:
+                    continue
+                if not all(blk in dom.get(p, ()) for p in back):
+                    continue
+                elems.append((e, fpath))
+            if not elems:
+                continue
+            templates = None
+            for p in back:
+                B = edges[(p, h)]
+                cur = set()
+                for e, fpath in elems:
+                    if e not in B.iv:
+                        continue
+                    for f in B.facts:
+                        if e not in f.t:
+                            continue
+                        others = [x for x in f.t if x != e]
+                        if any(x in self.elem_of for x in others):
+                            continue
+                        if any(self.defined_in_loop(x, frame, body) for x in others):
+                            continue
+                        cur.add((fpath, f.rename({e: ("ELEM",)})))
+                    iv = B.ivof(e)
+                    r = self.st.range(e)
+                    if iv and D.lo(iv) > r[0]:
+                        cur.add((fpath, Lin({("ELEM",): -1}, D.lo(iv))))
+                    if iv and D.hi(iv) < r[1]:
+                        cur.add((fpath, Lin({("ELEM",): 1}, -D.hi(iv))))
+                templates = cur if templates is None else self._weaken_templates(templates, cur)
+            if not templates:
+                continue
+            for b in body:
+                for tgt in self.succs(inst["body"]["blocks"][b]):
+                    if tgt in body or (b, tgt) not in edges:
+                        continue
+                    U = edges[(b, tgt)]
+                    # exits on which the rest is empty (every element has been the head once)
+                    if U.dead or not U.entails(U.term(qh.len)):
+                        continue
+                    U = U.copy()
+                    edges[(b, tgt)] = U
+                    if self._attach_efacts(U, l0, templates):
+                        self.forall_established.append({"function": inst["name"], "loop_head": h, "facts": sorted("%s: %r <= 0" % (fp, l) for fp, l in templates), "form": "shrinking slice"})
+                        if tgt not in requeue:
+                            requeue.append(tgt)
+        return requeue
+
     @staticmethod
     def _weaken_templates(a, b):
         """Templates that hold on both back edges (bound templates are weakened to the looser bound)."""
@@ -1033,6 +1128,7 @@ class Exec(Interp):
                 narrowing = True  # no further widening; heads re-visited at most twice more
                 for h_ in sorted(heads):
                     work.extend(t_ for t_ in self.forall_rule(inst, frame, h_, inputs, edges) if t_ not in work)
+                    work.extend(t_ for t_ in self.forall_shrink_rule(inst, frame, h_, inputs, edges) if t_ not in work)
                 if work:
                     continue
             break
